@@ -73,8 +73,12 @@ package modepb
 //@ // travel as an interceptor, and a request without values writes an empty message.  One write, of the request's values
 //@ // when it has any, and the model's verdict (stored value or error) goes back unchanged ----
 //@ func (*Model).UpdateModeValues(values, opts) (res, err)
-//@   trusted
-//@   option opaque
+//@   option only post     // the resource's own preconditions (a well-formed Value, the caller's message is not the stored one) are the server's business
+//@   track Set
+//@   // the model layer is a cast around the resource write: ONE write of the caller's message; the answer is the write's
+//@   // result (the message now stored, which is what the next Get reads), never the request
+//@   ensures [one-write] calls(Set) == old(calls(Set)) + 1 && istype(lastarg(Set, 1), *traits.ModeValues) && cast(lastarg(Set, 1), *traits.ModeValues) == values && lastarg(Set, 2) == opts
+//@   ensures [answer] err == lastcall(Set, 1) && (isnil(lastcall(Set, 0)) ==> res == nil) && (!isnil(lastcall(Set, 0)) && istype(lastcall(Set, 0), *traits.ModeValues) ==> res == cast(lastcall(Set, 0), *traits.ModeValues))
 //@   modifies all
 //@
 //@ func (*ModelServer).UpdateModeValues(ctx, request) (res, err)
